@@ -155,7 +155,8 @@ def gen_trace(recipe):
       d = int(rng.integers(2, 7))
       X, y = gen.dataset(rng, d=d)
       # unscaled features: standardised data (all the suite uses), tiny and large magnitudes (an exact power of two keeps the grid)
-      X = X * float(2.0 ** int(rng.choice([0, 0, -12, -6, 8, 15])))
+      xscale = float(2.0 ** int(rng.choice([0, 0, -12, -6, 8, 15])))
+      X = X * xscale
       idx, lab = gen.pairs_from(rng, X, y, 3 * d + 6)
       as_tuples = bool(rng.integers(2))
       inp = X[idx] if as_tuples else X                     # tuples: points repeat -> must be de-duplicated
@@ -202,7 +203,9 @@ def gen_trace(recipe):
       # an SPD array is an SPD array whatever its dtype: integer-typed priors through the learners that take one
       spd_i = np.round(spd * 2.0).astype(np.int64)
       spd_i = (spd_i + spd_i.T) // 2 + d * np.eye(d, dtype=np.int64)
-      if np.linalg.eigvalsh(spd_i.astype(float)).min() > 0.5:
+      # (on unit-scale data only: an O(1) prior with features of magnitude 2^15 makes the iterative learners ill-conditioned
+      #  enough for a change of summation order to show at the percent level)
+      if xscale == 1.0 and np.linalg.eigvalsh(spd_i.astype(float)).min() > 0.5:
         for name, key in (('ITML', 'prior'), ('LSML', 'prior'), ('SDML', 'prior'), ('MMC', 'init')):
           tr = gen.training(rng, name, X=X, y=y)
           o = dict(gen.FAST[name])
